@@ -14,6 +14,7 @@ struct PremainState {
   int ran;             // the probe has run in this process
   int world;           // which world
   int fopen_calls;
+  int unsupported_api;  // the library used open/openat/opendir before main(): cannot be judged
   PremainOp r[8];
 };
 extern PremainState g_premain;
@@ -24,6 +25,7 @@ int premain_worlds();
 void premain_env(int world, const char** tzdir, const char** tz);   // nullptr: unset
 char* premain_getenv(const char* name);
 FILE* premain_fopen(const char* path);
+bool premain_exists(const char* path, bool* is_dir);   // the pre-main world's files (and their parent directories)
 
 }  // namespace sim
 #endif
